@@ -16,6 +16,7 @@ package files
 import (
 	"archive/zip"
 	"fmt"
+	"github.com/acquirecloud/golibs/errors"
 	"github.com/acquirecloud/golibs/strutil"
 	"io"
 	"os"
@@ -177,6 +178,10 @@ func UnzipToFolder(zipFile, destDir string) error {
 			continue
 		}
 
+		if !isInDir(destDir, filepath.Join(destDir, z.Name)) {
+			return fmt.Errorf("UnzipToFolder: the file \"%s\" in the ziputil archive points outside of the dest dir %s: %w", z.Name, destDir, errors.ErrInvalid)
+		}
+
 		partPath, _ := filepath.Split(z.Name)
 		destPath := filepath.Join(destDir, partPath)
 		if !pathChecked[destPath] {
@@ -208,6 +213,15 @@ func UnzipToFolder(zipFile, destDir string) error {
 	}
 
 	return nil
+}
+
+// isInDir returns true if the path is located inside the dir
+func isInDir(dir, path string) bool {
+	rel, err := filepath.Rel(dir, path)
+	if err != nil {
+		return false
+	}
+	return rel != ".." && !strings.HasPrefix(rel, ".."+string(filepath.Separator))
 }
 
 // CreateRandomDir creates a randomly name directory in the path with prefix
